@@ -168,3 +168,37 @@ def float_same(a, b):
             return math.isnan(a) and math.isnan(b)
         return a == b and math.copysign(1, a) == math.copysign(1, b)
     return a == b and type(a) is type(b)
+
+
+def fletcher_twin(payload: bytes, i: int, d: int) -> bytes:
+    """A different payload of the same length with the same Fletcher-8 checksum:
+    adding (+d, -2d, +d) to three consecutive bytes leaves both running sums
+    unchanged."""
+    b = bytearray(payload)
+    i %= max(1, len(b) - 2)
+    d = 1 + d % 255
+    b[i] = (b[i] + d) % 256
+    b[i + 1] = (b[i + 1] - 2 * d) % 256
+    b[i + 2] = (b[i + 2] + d) % 256
+    return bytes(b)
+
+
+def ubx_frame_with_checksum(cls: bytes, mid: bytes, payload: bytes, target: bytes) -> bytes:
+    """Frame whose payload is `payload` + two solved bytes such that the
+    Fletcher-8 checksum equals `target` (2 bytes)."""
+    n = len(payload) + 2
+    head = cls + mid + n.to_bytes(2, "little") + payload
+    a0 = b0 = 0
+    for x in head:
+        a0 = (a0 + x) % 256
+        b0 = (b0 + a0) % 256
+    a, b = target[0], target[1]
+    a1 = (b - a - b0) % 256
+    x = (a1 - a0) % 256
+    y = (a - a1) % 256
+    f = ubx_frame(cls, mid, payload + bytes([x, y]))
+    assert f[-2:] == bytes(target), (f[-2:], target)
+    return f
+
+
+MAGIC_CHECKSUMS = [b"\r\n", b"\n\r", b"\x00\x00", b"\xff\xff", b"\xb5\x62", b"$G", b"\xd3\x00", b"\n\n", b"*\r"]
